@@ -93,6 +93,22 @@ func c14Measure(r *core.Run, o *Out, builder, relay string, signReq bool, decor 
 		r.Probe("decorated_document")
 	}
 	endpoint := o.Cfg.IdPSSOURL
+	// the application may re-assign the IdP endpoint (metadata refresh) between building a document and
+	// building the URL for it: the URL goes to the configured endpoint, whatever the document says
+	moved := t.Int(4, "c14.moved") == 1
+	move := func(slo bool) {
+		if !moved {
+			return
+		}
+		endpoint = strings.Replace(endpoint, "https://idp.example", "https://idp-new.example", 1)
+		if slo {
+			sp.IdentityProviderSLOURL = endpoint
+		} else {
+			sp.IdentityProviderSSOURL = endpoint
+		}
+		r.Fault("endpoint_reassigned_between_document_and_url")
+	}
+	defer func() { sp.IdentityProviderSSOURL, sp.IdentityProviderSLOURL = o.Cfg.IdPSSOURL, o.Cfg.IdPSLOURL }()
 	var doc *etree.Document
 	var u string
 	var docStr string
@@ -106,6 +122,7 @@ func c14Measure(r *core.Run, o *Out, builder, relay string, signReq bool, decor 
 				return err
 			}
 			decorate(doc, decor)
+			move(false)
 			u, err = sp.BuildAuthURLRedirect(relay, doc)
 			signingApplies = signReq
 		case "BuildLogoutURLRedirect":
@@ -115,6 +132,7 @@ func c14Measure(r *core.Run, o *Out, builder, relay string, signReq bool, decor 
 				return err
 			}
 			decorate(doc, decor)
+			move(true)
 			u, err = sp.BuildLogoutURLRedirect(relay, doc)
 			signingApplies = true
 		case "BuildAuthURLFromDocument":
@@ -123,6 +141,7 @@ func c14Measure(r *core.Run, o *Out, builder, relay string, signReq bool, decor 
 				return err
 			}
 			decorate(doc, decor)
+			move(false)
 			u, err = sp.BuildAuthURLFromDocument(relay, doc)
 		case "BuildAuthURL":
 			u, err = sp.BuildAuthURL(relay)
